@@ -76,10 +76,24 @@ def run_native(test, scenarios, repo=None, timeout=1500, release=False):
         os.remove(outp)
     env = dict(os.environ, CARGO_TARGET_DIR=os.path.join(nd, "target"), VERIF_SCENARIOS=inp, VERIF_OBS=outp, CARGO_NET_OFFLINE="true")
     feats = ["--features", "dir"] if test == "dir_witness" else []
-    p = subprocess.run(["cargo", "test", "--offline", "--quiet"] + (["--release"] if release else []) + feats + ["--test", "verif_" + test, "--", "--nocapture"], cwd=dst, env=env,
-                       stdout=subprocess.PIPE, stderr=subprocess.STDOUT, text=True, timeout=timeout)
+    # own process group: a change that sends the real code into an endless loop must not leave a spinning test binary behind
+    import signal
+    pr = subprocess.Popen(["cargo", "test", "--offline", "--quiet"] + (["--release"] if release else []) + feats + ["--test", "verif_" + test, "--", "--nocapture"], cwd=dst, env=env,
+                          stdout=subprocess.PIPE, stderr=subprocess.STDOUT, text=True, start_new_session=True)
+    try:
+        out_text, _ = pr.communicate(timeout=timeout)
+    except subprocess.TimeoutExpired:
+        try:
+            os.killpg(pr.pid, signal.SIGKILL)
+        except Exception:
+            pass
+        try:
+            pr.communicate(timeout=10)
+        except Exception:
+            pass
+        raise RuntimeError("native run timed out after %ds" % timeout)
     if not os.path.exists(outp):
-        raise RuntimeError("native run failed: " + p.stdout[-800:])
+        raise RuntimeError("native run failed: " + (out_text or "")[-800:])
     lines = open(outp).read().splitlines()
     os.remove(inp)
     os.remove(outp)
